@@ -76,7 +76,7 @@ CondResult(E, cond) ==
     IN  IF r.ok THEN [E |-> E, v |-> r.v]
         ELSE [E |-> Raise(E, ErrExec), v |-> FALSE]
 
-RECURSIVE ExecSeq(_, _, _), ExecOp(_, _), ExecArms(_, _, _)
+RECURSIVE ExecSeq(_, _, _), ExecOp(_, _), ExecArms(_, _, _), ExecForeach(_, _, _)
 
 ExecSeq(ops, i, E) ==
     IF i > Len(ops) \/ ~E.ok THEN E
@@ -87,6 +87,13 @@ ExecArms(arms, i, E) ==
     ELSE LET r == CondResult(E, arms[i].cond)
          IN  IF r.v THEN ExecSeq(arms[i].body, 1, r.E)
              ELSE ExecArms(arms, i + 1, r.E)
+
+\* <foreach>: the item variable takes the elements in turn (a shallow copy of the array is iterated: the
+\* elements are those at the start); an error in the body ends the loop -- and the rest of the block
+ExecForeach(op, k, E) ==
+    IF k > Len(op.vals) \/ ~E.ok THEN E
+    ELSE IF ~(op.item \in DOMAIN E.dm /\ E.dm[op.item].def) THEN RaiseErr(E, ErrExec)
+    ELSE ExecForeach(op, k + 1, ExecSeq(op.body, 1, [E EXCEPT !.dm[op.item] = [def |-> TRUE, v |-> op.vals[k]]]))
 
 ExecOp(op, E) ==
     CASE op.op = "log" ->
@@ -109,6 +116,7 @@ ExecOp(op, E) ==
       [] op.op = "cancel" ->    \* <cancel sendid>: every pending delayed event sent with that id is dropped
             [E EXCEPT !.dq = SelectSeq(@, LAMBDA d : d.sid # op.sid)]
       [] op.op = "if" -> ExecArms(op.arms, 1, E)
+      [] op.op = "foreach" -> ExecForeach(op, 1, E)
       [] op.op = "fault" ->
             IF op.kind \in {"sendtarget"} THEN RaiseErr(E, ErrComm)
             ELSE RaiseErr(E, ErrExec)
